@@ -452,7 +452,7 @@ impl<'a> IrEmitter<'a> {
                 } else {
                     path.iter()
                         .map(|s| {
-                            let ident = format_ident!("{}", s);
+                            let ident = format_ident!("{}", Self::escape_keyword(s));
                             quote! { #ident }
                         })
                         .collect()
@@ -479,7 +479,7 @@ impl<'a> IrEmitter<'a> {
                 let path_ts = join_path_tokens(&path_tokens);
 
                 if let Some(alias_name) = alias {
-                    let alias_ident = format_ident!("{}", alias_name);
+                    let alias_ident = format_ident!("{}", Self::escape_keyword(alias_name));
                     Ok(quote! {
                         use #path_ts as #alias_ident;
                     })
@@ -487,11 +487,11 @@ impl<'a> IrEmitter<'a> {
                     let item_stmts: Vec<TokenStream> = items
                         .iter()
                         .map(|item| {
-                            let name_ident = format_ident!("{}", &item.name);
+                            let name_ident = format_ident!("{}", Self::escape_keyword(&item.name));
                             let path_tokens_clone = path_tokens.clone();
                             let path_ts_clone = join_path_tokens(&path_tokens_clone);
                             if let Some(alias) = &item.alias {
-                                let alias_ident = format_ident!("{}", alias);
+                                let alias_ident = format_ident!("{}", Self::escape_keyword(alias));
                                 quote! { use #path_ts_clone :: #name_ident as #alias_ident; }
                             } else {
                                 quote! { use #path_ts_clone :: #name_ident; }
